@@ -94,13 +94,23 @@ func (fr *Frame) doCallCommon(ins ssa.Instruction, c *ssa.CallCommon, pc *string
 	if vc.g.noEffect(names) {
 		return freshResults()
 	}
+	if p, ok := c.Value.(*ssa.Parameter); ok && fr.c != nil && fr.c.Opts["pure-params"] != "" {
+		for _, n := range strings.Split(fr.c.Opts["pure-params"], ",") {
+			if strings.TrimSpace(n) == p.Name() {
+				vc.note("calls through the function parameter %s of %s treated as pure (every call site passes a closure under a pure contract)", p.Name(), shortKey(fr.fn.String()))
+				return freshResults()
+			}
+		}
+	}
 	if callee != nil && vc.g.autoInline(callee, names) && vc.inlineDepth < 6 && len(callee.Blocks) > 0 {
 		if loops, err := findLoops(callee); err == nil && len(loops) == 0 {
 			return fr.inlineCall(callee, mc, c, args, pc, st)
 		}
 	}
 	vc.note("call to %s without contract: havoc of all heap state, result unconstrained", names[0])
-	vc.havocAll(st)
+	saved := fr.saveCapturedCells(c, st)
+	vc.havocAllKeeping(st, fr.topFrame().privHeaps)
+	fr.restoreCells(st, saved)
 	return freshResults()
 }
 
@@ -210,7 +220,9 @@ func (fr *Frame) applyContract(ins ssa.Instruction, fc *FuncContract, callee *ss
 		if !fc.HasMod {
 			vc.note("contract of %s has no modifies clause: treated as modifies *", fc.Key)
 		}
-		vc.havocAll(st)
+		saved := fr.saveCapturedCells(c, st)
+		vc.havocAllKeeping(st, fr.topFrame().privHeaps)
+		fr.restoreCells(st, saved)
 	default:
 		if !fc.Pure {
 			// The callee may allocate and initialise new objects. Allocation does not change the heap arrays: cells at
@@ -243,7 +255,14 @@ func (fr *Frame) applyContract(ins ssa.Instruction, fc *FuncContract, callee *ss
 			env.vars[fmt.Sprintf("result%d", i)] = tv{t: res[i], ty: r.ty}
 		}
 	}
+	ghostNames := map[string]bool{}
+	for _, gv := range fc.Ghosts {
+		ghostNames[gv.Name] = true
+	}
 	for _, e := range fc.Ensures {
+		if len(ghostNames) > 0 && mentionsIdent(e.E, ghostNames) {
+			continue // postcondition over the callee's own ghost variables: meaningful only inside the callee
+		}
 		t, err := env.boolExpr(e.E)
 		if err != nil {
 			vc.failed = fmt.Errorf("%s: ensures of %s: %v", vc.name, fc.Key, err)
@@ -586,7 +605,7 @@ func (fr *Frame) siteMatches(sa *SiteAction, ins ssa.Instruction) bool {
 		if (sa.When == "go") != isGo {
 			return false
 		}
-		if isDefer && sa.When != "defer" {
+		if isDefer != (sa.When == "defer") {
 			return false
 		}
 		c := ci.Common()
@@ -645,6 +664,12 @@ func (fr *Frame) addrDescr(addr ssa.Value) string {
 		return typeNameShort(st) + "." + f.Name()
 	case *ssa.Global:
 		return a.Pkg.Pkg.Name() + "." + a.Name()
+	case *ssa.Alloc:
+		if a.Comment != "" {
+			return "var." + a.Comment
+		}
+	case *ssa.FreeVar:
+		return "var." + a.Name()
 	}
 	return ""
 }
@@ -685,14 +710,43 @@ func (fr *Frame) runSites(ins ssa.Instruction, when string, pc string, st *State
 		for g := range vc.ghostT {
 			env.vars[g] = tv{t: vc.stGet0(st, "$g."+g), ty: vc.ghostT[g]}
 		}
+		// range indices of the enclosing loops: #i (innermost), #i<ordinal>
+		var inner *loopInfo
+		for _, l := range fr.loops {
+			if !l.blocks[ins.Block()] {
+				continue
+			}
+			for _, phi := range l.phis {
+				if phi.Comment == "rangeindex" {
+					env.hash[fmt.Sprintf("i%d", l.ordinal)] = tv{t: fr.v1(phi), ty: tInt}
+					if inner == nil || len(l.blocks) < len(inner.blocks) {
+						inner = l
+						env.hash["i"] = tv{t: fr.v1(phi), ty: tInt}
+					}
+				}
+			}
+		}
 		if ci, ok := ins.(ssa.CallInstruction); ok {
 			c := ci.Common()
+			at := ""
+			if len(c.Args) > 0 {
+				at = typeNameShort(c.Args[0].Type())
+			}
+			env.vars["argtype0"] = tv{t: vc.d.strLit(at), ty: tString}
 			if c.IsInvoke() {
 				env.vars["recv"] = tv{t: fr.v1(c.Value), ty: c.Value.Type()}
 			}
 			for i, a := range c.Args {
 				env.vars[fmt.Sprintf("arg%d", i)] = tv{t: fr.v1(a), ty: a.Type()}
 			}
+			// name of the struct field whose address is the first argument (e.g. which mutex is being locked)
+			rf := ""
+			if len(c.Args) > 0 {
+				if fa, ok := c.Args[0].(*ssa.FieldAddr); ok {
+					rf = fa.X.Type().Underlying().(*types.Pointer).Elem().Underlying().(*types.Struct).Field(fa.Field).Name()
+				}
+			}
+			env.vars["recvfield"] = tv{t: vc.d.strLit(rf), ty: tString}
 			if v, ok := ins.(ssa.Value); ok && when == "aftercall" {
 				rv := fr.val(v)
 				if tup, ok := v.Type().(*types.Tuple); ok {
@@ -774,6 +828,20 @@ func (fr *Frame) runSites(ins ssa.Instruction, when string, pc string, st *State
 }
 
 func (fr *Frame) bindParams(env *SpecEnv) {
+	// named address-taken locals (variables captured by closures, or whose address is taken)
+	for _, b := range fr.fn.Blocks {
+		for _, ins := range b.Instrs {
+			a, ok := ins.(*ssa.Alloc)
+			if !ok || a.Comment == "" {
+				continue
+			}
+			if l, ok := fr.locs[a]; ok {
+				env.lazy[a.Comment] = l
+			} else if _, ok := fr.vals[a]; ok {
+				env.lazy[a.Comment] = fr.vc.locOfPtr(fr.v1(a), a.Type())
+			}
+		}
+	}
 	for _, p := range fr.fn.Params {
 		env.vars[p.Name()] = tv{t: fr.v1(p), ty: p.Type()}
 	}
@@ -810,4 +878,106 @@ func sortedSet(m map[string]bool) []string {
 	}
 	sort.Strings(out)
 	return out
+}
+
+func mentionsIdent(e Expr, names map[string]bool) bool {
+	switch n := e.(type) {
+	case *EIdent:
+		return names[n.Name]
+	case *EUnary:
+		return mentionsIdent(n.X, names)
+	case *EBinary:
+		return mentionsIdent(n.X, names) || mentionsIdent(n.Y, names)
+	case *ECall:
+		if mentionsIdent(n.Fun, names) {
+			return true
+		}
+		for _, a := range n.Args {
+			if mentionsIdent(a, names) {
+				return true
+			}
+		}
+	case *EIndex:
+		return mentionsIdent(n.X, names) || mentionsIdent(n.I, names)
+	case *ESlice:
+		return mentionsIdent(n.X, names) || (n.Lo != nil && mentionsIdent(n.Lo, names)) || (n.Hi != nil && mentionsIdent(n.Hi, names))
+	case *ESel:
+		return mentionsIdent(n.X, names)
+	case *ETypeAssert:
+		return mentionsIdent(n.X, names)
+	case *EIs:
+		return mentionsIdent(n.X, names)
+	case *EQuant:
+		return mentionsIdent(n.Body, names)
+	case *EIte:
+		return mentionsIdent(n.C, names) || mentionsIdent(n.A, names) || mentionsIdent(n.B, names)
+	case *ELet:
+		return mentionsIdent(n.Val, names) || mentionsIdent(n.Body, names)
+	case *EOld:
+		return mentionsIdent(n.X, names)
+	}
+	return false
+}
+
+type savedCell struct {
+	loc *Loc
+	val string
+}
+
+// saveCapturedCells: the cells of variables captured by this closure (its free variables) are reachable only through
+// closures that capture them. A callee that is not handed any function value cannot write them, so their content
+// survives the havoc of an unknown call. (Not applied to go/select/receive: concurrent closures may run there.)
+func (fr *Frame) saveCapturedCells(c *ssa.CallCommon, st *State) []savedCell {
+	if !fr.top {
+		return nil
+	}
+	for _, a := range c.Args {
+		switch a.Type().Underlying().(type) {
+		case *types.Signature, *types.Interface:
+			if _, isSig := a.Type().Underlying().(*types.Signature); isSig {
+				return nil
+			}
+			if mi, ok := a.(*ssa.MakeInterface); ok {
+				if _, isSig := mi.X.Type().Underlying().(*types.Signature); isSig {
+					return nil
+				}
+			}
+		}
+	}
+	var out []savedCell
+	for _, fv := range fr.fn.FreeVars {
+		pt, ok := fv.Type().Underlying().(*types.Pointer)
+		if !ok {
+			continue
+		}
+		if _, isStruct := isStructT(pt.Elem()); isStruct {
+			continue
+		}
+		if _, isArr := pt.Elem().Underlying().(*types.Array); isArr {
+			continue
+		}
+		l := fr.locOf(fv)
+		if l.opaque || l.heap == "" {
+			continue
+		}
+		out = append(out, savedCell{l, fr.vc.define("cap", fr.vc.d.sortOf(pt.Elem()), fr.vc.loadLoc(st, l))})
+	}
+	return out
+}
+
+func (fr *Frame) restoreCells(st *State, saved []savedCell) {
+	for _, s := range saved {
+		fr.vc.storeLoc(st, s.loc, s.val)
+	}
+	if len(saved) > 0 {
+		fr.vc.note("variables captured by a closure keep their value across calls that receive no function value")
+	}
+}
+
+func (fr *Frame) topFrame() *Frame {
+	f := fr
+	for f.parent != nil {
+		f = f.parent
+	}
+	return f
 }
